@@ -23,8 +23,8 @@ import (
 type c14msg struct {
 	name  string
 	raw   []byte
-	valid bool   // expected to be adopted (given >= 3 usable nodes)
-	class string // for unusable replies
+	valid bool              // expected to be adopted (given >= 3 usable nodes)
+	class string            // for unusable replies
 	info  map[string]string // what INFO says about these addresses WHILE this message is processed: "loading", "down", "dialerr"
 }
 
